@@ -469,7 +469,7 @@ for C in range(0, 15):
         mem_gb=5, est_s=300, family="cbts_model", funcs=CBTS_FUNCS[:1] + CBTS_FUNCS[2:], witnesses=["edge-right-at-the-marker"],
         sched="thorough", klass="best",
         params={"marker_counter": C, "edge": "every tick of that half wrap, every channel"})
-add(name="c20_model", prop="C20", crate="phys", expr="crate::c20::model", unwind=4, cap_s=5400, mem_gb=8, est_s=1500,
+add(name="c20_model", prop="C20", crate="phys", expr="crate::c20::model", unwind=4, cap_s=2400, mem_gb=8, est_s=1500,
     family="cbts_model", funcs=CBTS_FUNCS[:1] + CBTS_FUNCS[2:], witnesses=["last-half-wrap"], sched="thorough", klass="best",
     params={"edge": "every tick of the first 8 wraps (symbolic marker counter)"})
 for N in (2, 3, 4, 5):
@@ -479,6 +479,7 @@ for N in (2, 3, 4, 5):
         params={"fifo_entries": N, "content": "entry 0 = counter-0 marker, every other entry an arbitrary timestamp or marker"})
 META["C20"] = {
     "pool_k": 2,
+    "budget_s": {"thorough": 3600},
     "bounds": "chronobox_time: every 24-bit timestamp/channel/edge with every presence/counter/top-bit combination of the two markers "
               "(soundness); hardware model over the first 8 wraps (15 half wraps; one instance per half wrap, plus one with a symbolic "
               "counter in thorough); displacement by one half wrap, dropped/duplicated/missing marker. Row loop of main(): every FIFO of "
@@ -514,7 +515,7 @@ def c04(n, ids, lens, sched, kind, klass="core", est=900, lite=False):
            "short": ["well-formed-set-bad-payload", "faulty-set"], "fault": ["faulty-set"]}[kind]
     add(name=name, prop="C04", also=["C01"], crate="det",
         expr="crate::c04::reassembly%s::<%d, %d, %d>" % ("_lite" if lite else "", n, octal(ids), b64(lens)),
-        unwind=12, unwindset=C04_LOOPS, cap_s=4000 if not lite else 840, mem_gb=14, est_s=est, family="reassembly_" + kind.replace("short", "valid"),
+        unwind=12, unwindset=C04_LOOPS, cap_s=4000 if not lite else 2400, mem_gb=14, est_s=est, family="reassembly_" + kind.replace("short", "valid"),
         funcs=CHUNKS_FUNCS, witnesses=wit, sched=sched, klass=klass,
         params={"chunks": n, "arrival_order_of_ids": list(ids), "payload_lengths": list(lens),
                 "symbolic": "board (2 real boards), chip, end-of-message flag, counters, payload bytes"})
@@ -557,6 +558,7 @@ for (n, ids, lens) in ((1, (0,), (28,)), (2, (1, 0), (28, 28)), (3, (2, 0, 1), (
         params={"chunks": n, "ids": list(ids), "payload_lengths": list(lens), "payload": "fully symbolic"})
 META["C04"] = {
     "pool_k": 0,
+    "quick_cap_s": 780,
     "budget_s": {"thorough": 6 * 3600},
     "bounds": "QUICK: three `lite` instances (arrival order (1,0) of a well-formed pair; duplicate (0,0); three chunks with a non-final "
               "chunk 3 bytes short) in which a well-formed set must give Ok or BadPayload and a faulty set the documented chunk-level "
